@@ -23,6 +23,7 @@ class Crate:
         self.adts = {a['path']: a for a in doc['adts']}
         self.impls = doc['impls']
         self.aliases = {a['path']: a['ty'] for a in doc['aliases']}
+        self.cap_layouts = {a['adt']: a['cap_layouts'] for a in doc['aliases'] if 'cap_layouts' in a}
         self.consts = {c['path']: c for c in doc['consts']}
         self.fns = {f['path']: f for f in doc['fns']}
 
@@ -324,3 +325,82 @@ def dump_body(b, out=sys.stdout):
             w('    goto bb%d\n' % t['t'])
         else:
             w('    %s\n' % (t.get('dbg') or k))
+
+
+# --------------------------------------------------------------------------
+# definitions / simple backward tracing
+
+def local_defs(body):
+    """local -> list of ('stmt', bb, idx, stmt) | ('call', bb, term) definitions of the bare local."""
+    defs = defaultdict(list)
+    for bb, blk in enumerate(body.blocks):
+        for i, st in enumerate(blk['stmts']):
+            if st['k'] == 'assign' and not st['place']['p']:
+                defs[st['place']['l']].append(('stmt', bb, i, st))
+        t = blk['term']
+        if t['k'] == 'call' and not t['dest']['p']:
+            defs[t['dest']['l']].append(('call', bb, t))
+    return defs
+
+
+def single_def(defs, l):
+    d = defs.get(l, [])
+    return d[0] if len(d) == 1 else None
+
+
+def trace_value(body, defs, op, depth=0, through_refs=True):
+    """Follow an operand backwards through moves/copies/reborrows/pointer casts to its
+    source. Returns a list of steps (outermost last) ending in a terminal:
+      ('param', l) | ('call', term) | ('place', place) | ('const', c) | ('multi', l) | ('rv', rv)
+    Intermediate steps: ('cast', ck, ty) | ('ref', bk) | ('rawptr', mut) | ('deref',)
+    """
+    steps = []
+    cur = op
+    for _ in range(64):
+        if 'const' in cur:
+            steps.append(('const', cur['const']))
+            return steps
+        p = op_place(cur)
+        if p['p']:
+            steps.append(('place', p))
+            return steps
+        l = p['l']
+        if 1 <= l <= body.arg_count:
+            steps.append(('param', l))
+            return steps
+        d = single_def(defs, l)
+        if d is None:
+            steps.append(('multi', l))
+            return steps
+        if d[0] == 'call':
+            steps.append(('call', d[2]))
+            return steps
+        rv = d[3]['rv']
+        k = rv['k']
+        if k == 'use':
+            cur = rv['op']
+            continue
+        if k == 'cast':
+            steps.append(('cast', rv['ck'], rv['ty']))
+            cur = rv['op']
+            continue
+        if k in ('ref', 'rawptr') and through_refs:
+            pl = rv['place']
+            # reborrow `&(*_x)` / `&raw (*_x)`: continue with _x
+            if pl['p'] == ['deref']:
+                steps.append(('reborrow', rv.get('bk') or ('mut' if rv.get('mut') else 'const')))
+                cur = {'copy': {'l': pl['l'], 'p': [], 'ty': None}}
+                continue
+            steps.append(('ref', rv.get('bk') or ('rawmut' if rv.get('mut') else 'rawconst'), pl))
+            return steps
+        if k == 'copy_for_deref':
+            pl = rv['place']
+            if not pl['p']:
+                cur = {'copy': pl}
+                continue
+            steps.append(('place', pl))
+            return steps
+        steps.append(('rv', rv))
+        return steps
+    steps.append(('deep',))
+    return steps
